@@ -81,7 +81,7 @@ def rvalue(rnd: random.Random, charset="ascii", maxlen=40):
         elif q < 0.9:
             c = rnd.randrange(0x100, 0xD800)
             out.append(chr(c))
-        elif q < 0.97:
+        elif q < 0.9995:
             out.append(chr(rnd.randrange(0x10000, 0x10FFFF)))
         else:
             out.append(chr(rnd.randrange(0xD800, 0xE000)))  # lone surrogate
